@@ -673,3 +673,72 @@ def u_print_exc(E):
                 found = True
                 E.prove_value_eq('print_exception_details/names-record-k', line[0], want, 'P')
     E.prove('print_exception_details/prints-record-line', z3.BoolVal(found), 'P')
+
+
+@unit('IpmWriter.write_many/every-record-encoded-with-the-writers-configuration', props=['C06', 'C19', 'C20'],
+      functions=[M + 'VbsWriter.write_many', M + 'IpmWriter.write', M + 'IpmWriter.__init__'])
+def u_ipmw_write_many(E):
+    """whatever path leads from IpmWriter.write_many to iso8583.dumps (inherited loop over write, or an override), each record
+    is encoded once, in order, with the writer's own encoding and configuration, and framed into the file"""
+    enc = E.fresh_seq('str', 'enc')
+    cfg = E.new_dict({'2': E.new_dict({})})
+    rec = E.fresh_seq('bytes', 'encoded')
+    E.assume(rec.n >= 1)
+    E.assume(rec.n <= max_len(E))
+    calls = []
+
+    def apply_dumps(E2, args, kw):
+        calls.append((list(args), dict(kw)))
+        return rec
+    E.contracts[I8 + 'dumps'] = apply_dumps
+    for blocked in (False, True):
+        del calls[:]
+        f = E.new_file(seq_lit('bytes', b''), 0)
+        w = E.instantiate(E.program.classes[M + 'IpmWriter'], [f], {'encoding': enc, 'iso_config': cfg, 'blocked': VBool(blocked)})
+        m1, m2 = E.new_dict({'MTI': lift('1144')}), E.new_dict({'MTI': lift('1240')})
+        E.method(w, 'write_many', E.new_list(seq_items('list', [m1, m2])))
+        tag = 'IpmWriter.write_many[%s]' % ('1014' if blocked else 'vbs')
+        E.prove(tag + '/one-encoding-per-record', z3.BoolVal(len(calls) == 2), 'P')
+        for k, (m, c) in enumerate(zip((m1, m2), calls)):
+            a, kw = c
+            obj = a[0] if a else kw.get('obj')
+            cfg_arg = kw.get('iso_config', a[2] if len(a) > 2 else None)
+            enc_arg = kw.get('encoding', a[1] if len(a) > 1 else None)
+            E.prove('%s/record-%d-is-the-%s-message' % (tag, k, 'first' if k == 0 else 'second'), z3.BoolVal(isinstance(obj, VRef) and obj.oid == m.oid), 'P')
+            E.prove('%s/record-%d-encoded-with-the-writers-configuration' % (tag, k), z3.BoolVal(isinstance(cfg_arg, VRef) and cfg_arg.oid == cfg.oid), 'P')
+            E.prove('%s/record-%d-encoded-with-the-writers-encoding' % (tag, k), z3.BoolVal(enc_arg is enc), 'P')
+        if not blocked:
+            one = seq_concat(S.be32(rec.n), rec)
+            E.prove_value_eq(tag + '/both-records-framed-in-order', E.getf(f, 'content'), seq_concat(one, one), 'P')
+
+
+def enter_unit(E, blocked, finalised_by):
+    """C11: entering a `with` block is not a finalisation and not a re-opening: it changes nothing, before or after the writer
+    was finalised -- so histories such as close(); with w: pass  or two with-blocks are covered by the refinalise units"""
+    w, sink, f, stream, r = writer_state(E, blocked)
+    if finalised_by == 'close':
+        E.method(w, 'close')
+    elif finalised_by == 'exit':
+        E.method(w, '__exit__', NONE, NONE, NONE)
+    refs = {'file': f, 'writer': w}
+    if blocked:
+        refs['blocker'] = sink
+    before = state_fingerprint(E, refs)
+    out = E.method(w, '__enter__')
+    after = state_fingerprint(E, refs)
+    tag = 'VbsWriter.__enter__[%s,%s]' % ('1014' if blocked else 'vbs', finalised_by or 'open')
+    E.prove(tag + '/returns-the-writer', z3.BoolVal(isinstance(out, VRef) and out.oid == w.oid), 'P')
+    for k in sorted(set(before) | set(after)):
+        if k not in before or k not in after:
+            E.prove('%s/state-unchanged/%s' % (tag, k), False, 'I')
+        else:
+            E.prove_value_eq('%s/state-unchanged/%s' % (tag, k), after[k], before[k], 'P')
+
+
+for _b in (False, True):
+    for _f in (None, 'close', 'exit'):
+        def _mk2(b=_b, f=_f):
+            def u(E):
+                enter_unit(E, b, f)
+            return u
+        unit('VbsWriter.__enter__[%s,%s]/no-effect' % ('1014' if _b else 'vbs', _f or 'open'), props=['C11'], functions=[M + 'VbsWriter.__enter__'])(_mk2())
